@@ -79,6 +79,11 @@ def run_models(pid, tier, registry):
         for a in m.get('must_cover', []):
             if r['actions'].get(a, (0, 0))[1] == 0:
                 raise MachineryError(f"vacuity: action {a} of model {m['name']} was never taken")
+        if m.get('apalache'):
+            ap = lib.apalache_cached(m['apalache']['name'], m['apalache']['module'], m['apalache']['obligations'])
+            s['apalache'] = ap
+            if any(x['outcome'] == 'Error' for x in ap):
+                raise MachineryError(f"Apalache refutes the inductive invariant of {m['apalache']['module']}: {ap}")
         states += r['distinct']
         trans += r['states']
         for k, v in r['actions'].items():
